@@ -1,20 +1,14 @@
 // ---- src/builder/cache/{all_app,lru_app}.rs: the two apply-cache adapters ----
 //%% include trusted/fxhashmap.rs
 
-/// what a cached value must satisfy for its key triple
-pub open spec fn entry_ok<T: DDNNFPtr>(k: (T, T, T), v: T) -> bool {
-    forall|env: Env| #[trigger] tr(env) ==> v.sem(env) == ite3(k.0.sem(env), k.1.sem(env), k.2.sem(env))
-}
-
 #[verifier::reject_recursive_types(T)]
 //%% extract src/builder/cache/all_app.rs :: - :: struct AllIteTable
 //%% @pub
 //%% end
 
 impl<T: DDNNFPtr> IteTable<T> for AllIteTable<T> {
-    open spec fn valid(&self) -> bool {
-        forall|k: (T, T, T), v: T| #[trigger] self.table.entries().contains((k, v)) ==> entry_ok(k, v)
-    }
+    open spec fn entries(&self) -> ISet<((T, T, T), T)> { self.table.entries() }
+    open spec fn wf(&self) -> bool { true }
     open spec fn cap_ok(&self) -> bool { true }
     open spec fn hash_spec(ite: Ite<T>) -> u64 { 0 }
 
@@ -25,9 +19,9 @@ impl<T: DDNNFPtr> IteTable<T> for AllIteTable<T> {
 //%% end
 
 //%% extract src/builder/cache/all_app.rs :: impl<'a, T: DDNNFPtr<'a>> IteTable<'a, T> for AllIteTable<T> :: fn get
-//%% @rewrite ?1 /r\.map\(\|v\| v\.neg\(\)\)/ => r.map(|v: &T| -> (w: T) ensures forall|env: Env| #[trigger] tr(env) ==> w.sem(env) == !v.sem(env) { v.neg() })
+//%% @rewrite ?1 /r\.map\(\|v\| v\.neg\(\)\)/ => r.map(|v: &T| -> (w: T) ensures w == v.neg_s() { v.neg() })
 //%% @entry
-        proof { axiom_clone_eq::<T>(); }
+        proof { axiom_clone_eq::<T>(); T::eq_is_sem(); }
 //%% end
 }
 
@@ -37,10 +31,10 @@ impl<T: DDNNFPtr> IteTable<T> for AllIteTable<T> {
 //%% end
 
 impl<T: DDNNFPtr> IteTable<T> for LruIteTable<T> {
-    open spec fn valid(&self) -> bool {
-        &&& self.table.wf()
-        &&& forall|k: (T, T, T)| #[trigger] self.table.has(k) ==> entry_ok(k, self.table.val_of(k))
+    open spec fn entries(&self) -> ISet<((T, T, T), T)> {
+        ISet::new(|e: ((T, T, T), T)| self.table.has(e.0) && self.table.val_of(e.0) == e.1)
     }
+    open spec fn wf(&self) -> bool { self.table.wf() }
     open spec fn cap_ok(&self) -> bool { self.table.in_range() }
     open spec fn hash_spec(ite: Ite<T>) -> u64 {
         match ite {
@@ -53,7 +47,7 @@ impl<T: DDNNFPtr> IteTable<T> for LruIteTable<T> {
 //%% end
 
 //%% extract src/builder/cache/lru_app.rs :: impl<'a, T: DDNNFPtr<'a>> IteTable<'a, T> for LruIteTable<T> :: fn get
-//%% @rewrite ?1 /r\.map\(\|v\| v\.neg\(\)\)/ => r.map(|v: T| -> (w: T) ensures forall|env: Env| #[trigger] tr(env) ==> w.sem(env) == !v.sem(env) { v.neg() })
+//%% @rewrite ?1 /r\.map\(\|v\| v\.neg\(\)\)/ => r.map(|v: T| -> (w: T) ensures w == v.neg_s() { v.neg() })
 //%% @entry
         proof { T::eq_is_sem(); }
 //%% end
